@@ -111,14 +111,21 @@ impl<F: Read + Seek> BufRead for Stream<F> {
             let stream_id = self.stream_id;
             let offset = self.buf_offset_from_start;
             let minialloc = self.minialloc()?;
-            self.buffer.refill_with(remaining, |buf| {
+            let result = self.buffer.refill_with(remaining, |buf| {
                 read_data_from_stream(
                     &mut minialloc.write().unwrap(),
                     stream_id,
                     offset,
                     buf,
                 )
-            })?;
+            });
+            if result.is_err() {
+                // The buffer still claims to hold the previous window, which
+                // no longer matches the new offset; don't serve that data on
+                // the next call.
+                self.buffer.clear();
+            }
+            result?;
         }
         Ok(self.buffer.remaining_slice())
     }
